@@ -880,7 +880,14 @@ class Interp(object):
     def getattr(self, v, name, src=''):
         if isinstance(v, Obj):
             if name in v.fields:
-                return v.fields[name]
+                fv = v.fields[name]
+                if isinstance(fv, V.LazyField):
+                    saved, self.ctx.spec = self.ctx.spec, 0     # the construction may fork
+                    try:
+                        fv = v.fields[name] = fv.fn(self)
+                    finally:
+                        self.ctx.spec = saved
+                return fv
             if name == '__class__':
                 return v.cls
             if name == '__dict__':
@@ -955,6 +962,15 @@ class Interp(object):
                     return BoundMethod(mv, v.obj)
                 return mv
             if name == '__init__':
+                if isinstance(v.obj, Obj) and any(c.name == 'BaseException' for c in v.obj.cls.mro()):
+                    o = v.obj
+
+                    def exc_init(it2, a, k, o=o):
+                        if k:
+                            it2.raise_builtin('TypeError', 'wd:bind[exception __init__ takes no keyword arguments]')
+                        o.fields['args'] = tuple(a)
+                        return None
+                    return Builtin('BaseException.__init__', exc_init)
                 return BuiltinMethod('object.__init__', v.obj)
             if name in ('__enter__', '__exit__', '__repr__', '__str__'):
                 return BuiltinMethod('object.' + name, v.obj)
@@ -1340,6 +1356,7 @@ class Interp(object):
             self.exec(st, frame)
 
     def exec(self, node, frame):
+        self.ctx.loc = 'L%d' % node.lineno
         m = getattr(self, 'exec_' + type(node).__name__, None)
         if m is None:
             raise EngineError('statement %s' % type(node).__name__)
